@@ -116,6 +116,25 @@ MANIFEST = {
 NOW = datetime(2030, 1, 1, 0, 0, 0, tzinfo=UTC)
 MARKER_TEXT = "Server disconnected without sending a response."
 
+# ------------------------------------------------------------------------------------------------ reporting
+
+_PER_KEY: dict[str, int] = {}
+
+
+def _fail(ctx: Any, case: Any, key: str, what: str) -> None:
+    """Report a property failure; keep at most 5 inputs per key so that every distinct key surfaces."""
+    _PER_KEY[key] = _PER_KEY.get(key, 0) + 1
+    if _PER_KEY[key] <= 5:
+        ctx.fail(case, key, what)
+    else:
+        ctx.notes["failures_not_listed"] = ctx.notes.get("failures_not_listed", 0) + 1
+
+
+def saturated(ctx: Any) -> bool:
+    """Enough failing inputs were collected: more enumeration cannot add information."""
+    return len(ctx.failures) >= 200 or sum(_PER_KEY.values()) >= 5000
+
+
 # ------------------------------------------------------------------------------------------------ numbers
 
 
@@ -428,13 +447,13 @@ def check_waits(ctx: Any, case: Any, c: dict[str, Any], sleeps: list[Any], where
     mx = num_parse(c["backoff_max"])
     for d in sleeps:
         if not is_number(d) or d != d:
-            ctx.fail(case, f"C38:{where}:sleep-not-a-number", f"slept {d!r}")
+            _fail(ctx, case, f"C38:{where}:sleep-not-a-number", f"slept {d!r}")
             return False
         if d < 0:
-            ctx.fail(case, f"C38:{where}:sleep-negative", f"slept {d!r}")
+            _fail(ctx, case, f"C38:{where}:sleep-negative", f"slept {d!r}")
             return False
         if not (d <= mx):
-            ctx.fail(case, f"C38:{where}:sleep-above-backoff-max", f"slept {d!r} with backoff_max {mx!r}")
+            _fail(ctx, case, f"C38:{where}:sleep-above-backoff-max", f"slept {d!r} with backoff_max {mx!r}")
             return False
     return True
 
@@ -476,11 +495,11 @@ def check_validation(ctx: Any, case: dict[str, Any], model: Any) -> None:
     finite = all(x == x and x not in (math.inf, -math.inf) and x >= 0 for x in (b, m))
     ctx.case(case, nontrivial=True, tags=("part:validate", "accepted" if impl is None else f"rejected:{impl}"))
     if impl is None and not (c["max_retries"] >= 0 and finite):
-        ctx.fail(case, "C38:config-accepts-nonfinite-or-negative",
+        _fail(ctx, case, "C38:config-accepts-nonfinite-or-negative",
                  f"HttpRetryConfig accepted max_retries={c['max_retries']} backoff_base={b!r} backoff_max={m!r}: no bound "
                  f"0 <= wait <= backoff_max can hold")
     if impl is not None and c["max_retries"] >= 0 and finite:
-        ctx.fail(case, "C38:config-rejects-valid", f"HttpRetryConfig rejected a finite non-negative configuration ({impl})")
+        _fail(ctx, case, "C38:config-rejects-valid", f"HttpRetryConfig rejected a finite non-negative configuration ({impl})")
     if ctx.driver is not None and model != impl:
         ctx.mismatch(case, model, impl, "HttpRetryConfig validation: model vs implementation")
 
@@ -544,7 +563,7 @@ def check_delay(ctx: Any, pin: Pin, case: dict[str, Any], model: Any) -> None:
             "attempt:>=1024" if case["attempt"] >= 1024 else "attempt:<1024"]
     ctx.case(case, nontrivial=True, tags=tuple(tags))
     if d is None:
-        ctx.fail(case, f"C38:delay:raises:{impl['exc']}", f"_compute_delay raised {impl['exc']} for attempt {case['attempt']}")
+        _fail(ctx, case, f"C38:delay:raises:{impl['exc']}", f"_compute_delay raised {impl['exc']} for attempt {case['attempt']}")
     else:
         check_waits(ctx, case, c, [d], "delay")
     if ctx.driver is not None and model != impl:
@@ -591,7 +610,7 @@ def oracle_run(ctx: Any, case: dict[str, Any], c: dict[str, Any], script: list[d
     mr = c["max_retries"]
     n = obs["sends"]
     if n > mr + 1:
-        ctx.fail(case, "C38:run:too-many-sends", f"{n} transmissions with max_retries={mr}")
+        _fail(ctx, case, "C38:run:too-many-sends", f"{n} transmissions with max_retries={mr}")
         return
     for k in range(n - 1):
         s = script[k] if k < len(script) else None
@@ -601,16 +620,16 @@ def oracle_run(ctx: Any, case: dict[str, Any], c: dict[str, Any], script: list[d
                 key, what = f"status:{code}", f"status {code}"
             else:
                 key, what = s["kind"], s["kind"]
-            ctx.fail(case, f"C38:run:resend-after-{key}",
+            _fail(ctx, case, f"C38:run:resend-after-{key}",
                      f"transmission {k + 1} met {what}, which is not retryable under this configuration, and was re-sent")
             return
     if not check_waits(ctx, case, c, [st["slept"] for st in obs["steps"] if st["has_sleep"]], "run"):
         return
     o = obs["outcome"]
     if "raised" in o and (o["raised"] == "overflow" or o["raised"].startswith("unexpected")):
-        ctx.fail(case, f"C38:run:raises:{o['raised']}", f"the retry loop raised {o['raised']} instead of a response / the transport error")
+        _fail(ctx, case, f"C38:run:raises:{o['raised']}", f"the retry loop raised {o['raised']} instead of a response / the transport error")
     for a in obs["anomalies"]:
-        ctx.fail(case, f"C38:run:{a}", a)
+        _fail(ctx, case, f"C38:run:{a}", a)
 
 
 def compare_run(ctx: Any, case: dict[str, Any], script: list[dict[str, Any]], obs: dict[str, Any], model: Any) -> None:
@@ -679,7 +698,7 @@ def enumerate_runs(ctx: Any, pin: Pin, c: dict[str, Any], level: str, rot: int) 
     total = 0
     for _depth in range(mr + 2):
         scripts = [p + [x] for p in frontier for x in alpha]
-        if not scripts:
+        if not scripts or saturated(ctx):
             break
         models = (ctx.driver.batch([("C38.run", {"cfg": cj, "script": [sym_model(s) for s in sc], "jit": jj}) for sc in scripts])
                   if ctx.driver is not None else [None] * len(scripts))
@@ -738,6 +757,8 @@ def run_loop(ctx: Any, pin: Pin) -> None:
         plan.append((random_config(rng, 4), "small"))
     per_mr: dict[int, int] = {}
     for i, (c, level) in enumerate(plan):
+        if saturated(ctx):
+            break
         n = enumerate_runs(ctx, pin, c, level, i)
         per_mr[c["max_retries"]] = per_mr.get(c["max_retries"], 0) + n
     ctx.note("run_sequences_by_max_retries", per_mr)
@@ -801,12 +822,12 @@ def run_loop(ctx: Any, pin: Pin) -> None:
                                   _sleep=lambda d: None)
         except BaseException as e:  # noqa: BLE001
             if e is not exc:
-                ctx.fail(case, f"C38:run:raises:unexpected:{type(e).__name__}", f"{name} turned into {type(e).__name__}")
+                _fail(ctx, case, f"C38:run:raises:unexpected:{type(e).__name__}", f"{name} turned into {type(e).__name__}")
         ctx.case(case, nontrivial=True, tags=("part:exception-class", "retried" if sends[0] > 1 else "not-retried"))
         if sends[0] > 1 and not want_retry:
-            ctx.fail(case, f"C38:run:resend-after-other:{name}", f"httpx2.{name} is neither a connection error nor a timeout but was re-sent")
+            _fail(ctx, case, f"C38:run:resend-after-other:{name}", f"httpx2.{name} is neither a connection error nor a timeout but was re-sent")
         if sends[0] > 3:
-            ctx.fail(case, "C38:run:too-many-sends", f"{sends[0]} transmissions with max_retries=2")
+            _fail(ctx, case, "C38:run:too-many-sends", f"{sends[0]} transmissions with max_retries=2")
         if want_retry and sends[0] != 3:
             ctx.mismatch(case, {"sends": 3}, {"sends": sends[0]}, f"httpx2.{name} should be retried as connect/timeout")
 
@@ -1024,18 +1045,18 @@ def check_site(ctx: Any, sites: Sites, case: dict[str, Any], model: Any) -> None
     met = [sc[k] if k < len(sc) else None for k in range(n)]
     # ---- O
     if res[0] == "unexpected":
-        ctx.fail(case, f"C38:site:{site}:raises:{res[1]}", f"{site} raised {res[1]}")
+        _fail(ctx, case, f"C38:site:{site}:raises:{res[1]}", f"{site} raised {res[1]}")
     if site == "cancel":
         if n > 1:
-            ctx.fail(case, "C38:site:cancel:sent-more-than-once", f"cancel POSTed {n} times")
+            _fail(ctx, case, "C38:site:cancel:sent-more-than-once", f"cancel POSTed {n} times")
     elif site == "exchange":
         first_413 = n >= 1 and met[0] is not None and met[0]["kind"] == "status" and met[0]["code"] == 413
         if n > 2 or (n == 2 and not first_413):
             what = "a plain 200" if met[0] is None else (met[0]["kind"] if met[0]["kind"] != "status" else f"status {met[0]['code']}")
             key = "after-413" if first_413 else ("status" if met[0] is None or met[0]["kind"] == "status" else met[0]["kind"])
-            ctx.fail(case, f"C38:site:exchange:resent:{key}", f"exchange POSTed {n} times; the first transmission met {what}")
+            _fail(ctx, case, f"C38:site:exchange:resent:{key}", f"exchange POSTed {n} times; the first transmission met {what}")
         if any(st["has_sleep"] for st in obs["steps"]):
-            ctx.fail(case, "C38:site:exchange:slept", "exchange waited between transmissions: it went through the retry loop")
+            _fail(ctx, case, "C38:site:exchange:slept", "exchange waited between transmissions: it went through the retry loop")
     else:
         mr = c["max_retries"] if c is not None else 0
         round_len = 1
@@ -1043,7 +1064,7 @@ def check_site(ctx: Any, sites: Sites, case: dict[str, Any], model: Any) -> None
             s = met[k]
             if c is not None and spec_retryable(c, s):
                 if round_len > mr:
-                    ctx.fail(case, f"C38:site:{site}:too-many-sends", f"{round_len + 1} transmissions of one request with max_retries={mr}")
+                    _fail(ctx, case, f"C38:site:{site}:too-many-sends", f"{round_len + 1} transmissions of one request with max_retries={mr}")
                     break
                 round_len += 1
                 continue
@@ -1052,15 +1073,15 @@ def check_site(ctx: Any, sites: Sites, case: dict[str, Any], model: Any) -> None
                 round_len = 1
                 continue
             what = f"status {code}" if code is not None else s["kind"]
-            ctx.fail(case, f"C38:site:{site}:resend-after-{'status:' + str(code) if code is not None else s['kind']}",
+            _fail(ctx, case, f"C38:site:{site}:resend-after-{'status:' + str(code) if code is not None else s['kind']}",
                      f"{site}: transmission {k + 1} met {what} and was followed by another transmission")
             break
         if c is not None:
             check_waits(ctx, case, c, [st["slept"] for st in obs["steps"] if st["has_sleep"]], f"site:{site}")
         elif any(st["has_sleep"] for st in obs["steps"]):
-            ctx.fail(case, f"C38:site:{site}:slept-without-config", "a wait happened although no retry configuration was given")
+            _fail(ctx, case, f"C38:site:{site}:slept-without-config", "a wait happened although no retry configuration was given")
     for a in obs["anomalies"]:
-        ctx.fail(case, f"C38:site:{site}:{a}", a)
+        _fail(ctx, case, f"C38:site:{site}:{a}", a)
     # ---- K
     if model is not None:
         flat = [st for rnd in model["rounds"] for st in rnd]
@@ -1209,9 +1230,9 @@ def run_sockets(ctx: Any) -> None:
                     else "other")
         ctx.case(case, nontrivial=True, tags=("part:socket", f"socket:{mode}:{got_kind}"))
         if sends[0] > 3:
-            ctx.fail(case, "C38:run:too-many-sends", f"{sends[0]} transmissions with max_retries=2 ({mode})")
+            _fail(ctx, case, "C38:run:too-many-sends", f"{sends[0]} transmissions with max_retries=2 ({mode})")
         if mode == "partial" and sends[0] > 1:
-            ctx.fail(case, "C38:run:resend-after-other:mid-response-disconnect",
+            _fail(ctx, case, "C38:run:resend-after-other:mid-response-disconnect",
                      f"a disconnect after response bytes were received was re-sent {sends[0] - 1} times ({exc!r})")
         if (got_kind, sends[0]) != (kind, sends_want):
             ctx.mismatch(case, {"kind": kind, "sends": sends_want}, {"kind": got_kind, "sends": sends[0], "exc": repr(exc)},
@@ -1250,6 +1271,7 @@ def check_consts(ctx: Any) -> None:
 
 
 def run(ctx: Any) -> None:
+    _PER_KEY.clear()
     check_consts(ctx)
     with Pin() as pin:
         run_validation(ctx)
@@ -1261,6 +1283,7 @@ def run(ctx: Any) -> None:
 
 
 def replay(ctx: Any, case: dict[str, Any]) -> None:
+    _PER_KEY.clear()
     part = case.get("part")
     with Pin() as pin:
         if part == "validate":
